@@ -254,12 +254,16 @@ def r2(ctx):
                        for a in U.assigns_of(fi.node, x)):
                     ex = U.value_at(fi.node, idx, st.lineno,
                                     keep=tuple(keep))
+                    if _bound_before(fi.node, idx, st.lineno):
+                        ex = _range_item(ex, cand)
                     ok = _right_aligned_terms(ex, cand)
         if not ok:
             # decided on the *value* of the index at the store (locals
             # expanded flow-sensitively)
             d2 = U.value_at(fi.node, idx, st.lineno, keep=tuple(
                 x.id for x in ast.walk(cand) if isinstance(x, ast.Name)))
+            if _bound_before(fi.node, idx, st.lineno):
+                d2 = _range_item(d2, cand)
             ok = const(d2) == -1 or _right_aligned(d2, cand)
         ctx.require(ok, 'C15.R2', fi, st,
                     "writer must index _peak['duct'] right-aligned "
@@ -308,6 +312,7 @@ def r2(ctx):
                     'row index must be argmax of t_pin[:, col] for the same '
                     'column', key=fi.full + ' | pin argmax')
         tp = (T, ix)
+        tp_st = st
         # T must be the full pin array with the height column filled
         Td = U.single_def(fi.node, T.id) if isinstance(T, ast.Name) else T
         ctx.require(Td is not None and src(Td) == 'self.pin_temp_array',
@@ -331,6 +336,29 @@ def r2(ctx):
                 and src(v.func.value) in ('%s[%s]' % (src(T), src(ix)),
                                           '%s[%s, :]' % (src(T), src(ix))):
             copy_ok = True
+        if copy_ok and any(
+                min(tp_st.lineno, st.lineno) <= a.lineno
+                <= max(tp_st.lineno, st.lineno)
+                for x in list(ast.walk(T)) + list(ast.walk(ix))
+                if isinstance(x, ast.Name)
+                for a in U.assigns_of(fi.node, x.id)):
+            # the same text, but one of its locals is bound again between the
+            # value store and this store: not the same row
+            copy_ok = False
+        if not copy_ok and T is not None:
+            # decided on values: the stored object is a fresh copy of some
+            # expression (any of the copying forms above, or the list built
+            # element by element from it), and that expression, with its
+            # locals expanded at this store, is the row `T[ix]` the value
+            # store read, with its locals expanded at the value store
+            row = _copied(v)
+            vst = tp_st
+            want = ast.Subscript(value=U._clone(T), slice=U._clone(ix),
+                                 ctx=ast.Load())
+            if row is not None and _bound_before(fi.node, row, st.lineno) \
+                    and _bound_before(fi.node, want, vst.lineno):
+                copy_ok = src(U.value_at(fi.node, row, st.lineno)) == \
+                    src(U.value_at(fi.node, want, vst.lineno))
         same_guard = [src(g[0]) for g in U.guards(st)] == \
             [src(g[0]) for g in U.guards(val_st[0][1])]
         ctx.require(copy_ok and same_guard, 'C15.R2', fi, st,
@@ -374,6 +402,88 @@ def _right_aligned_terms(d, cand):
     neg = [t for sgn, t in terms if sgn < 0]
     return pos == sorted(["len(self._peak['duct'])", i]) and \
         neg in (['%s.shape[0]' % X], ['len(%s)' % X])
+
+
+def _copied(v):
+    """The expression E such that `v` evaluates to a fresh object holding the
+    elements of E: list(E) / tuple(E) / np.array(E) / np.copy(E) /
+    copy.copy(E) / copy.deepcopy(E), E.copy() / E.tolist(), or the identity
+    comprehension `[x for x in E]` (one generator, no condition, the element
+    is the bound name itself).  A full row `E[i, :]` is spelled `E[i]`.
+    None for anything else (a bare look-up or a basic slice of an array is a
+    view, not a copy)."""
+    e = None
+    if isinstance(v, ast.Call) and not v.keywords and len(v.args) == 1 and \
+            not isinstance(v.args[0], ast.Starred) and src(v.func) in (
+                'list', 'np.array', 'np.copy', 'copy.copy', 'copy.deepcopy',
+                'tuple'):
+        e = v.args[0]
+    elif isinstance(v, ast.Call) and isinstance(v.func, ast.Attribute) and \
+            v.func.attr in ('copy', 'tolist') and not v.args and \
+            not v.keywords:
+        e = v.func.value
+    elif isinstance(v, ast.ListComp) and len(v.generators) == 1:
+        g = v.generators[0]
+        if not g.ifs and not g.is_async and isinstance(g.target, ast.Name) \
+                and isinstance(v.elt, ast.Name) and v.elt.id == g.target.id:
+            e = g.iter
+    if isinstance(e, ast.Subscript) and isinstance(e.slice, ast.Tuple) and \
+            len(e.slice.elts) == 2 and isinstance(e.slice.elts[1], ast.Slice) \
+            and e.slice.elts[1].lower is None and e.slice.elts[1].upper is \
+            None and e.slice.elts[1].step is None:
+        e = ast.Subscript(value=e.value, slice=e.slice.elts[0],
+                          ctx=ast.Load())
+    return e
+
+
+def _bound_before(fn, e, line, _seen=None):
+    """Every local read by `e`, and every local its definitions read in turn,
+    is bound only ahead of `line` (so no binding can reach `line` round a
+    loop and the flow-sensitive expansion of `e` at `line` is its value)."""
+    seen = set() if _seen is None else _seen
+    for x in ast.walk(e):
+        if not isinstance(x, ast.Name) or x.id in seen:
+            continue
+        seen.add(x.id)
+        for a in U.assigns_of(fn, x.id):
+            if a.lineno >= line:
+                return False
+            v = getattr(a, 'value', None)
+            if isinstance(a, (ast.Assign, ast.AugAssign)) and v is not None \
+                    and not _bound_before(fn, v, line, seen):
+                return False
+    return True
+
+
+def _range_item(e, cand):
+    """Value of an element look-up on a range object: `range(a, b)[j]` is
+    `a + j` (builtin `range`, unit step).  Only for a range that has exactly
+    one entry per row of the candidate array X (cand == X[<i>]): the signed
+    terms of b - a cancel to X.shape[0] / len(X), so every row has its slot
+    and a `zip` of the range with X drops no row.  Anything else is returned
+    unchanged (and is then not a right-aligned index)."""
+    if not (isinstance(e, ast.Subscript) and isinstance(e.value, ast.Call)
+            and isinstance(e.value.func, ast.Name)
+            and e.value.func.id == 'range' and not e.value.keywords
+            and len(e.value.args) in (2, 3)
+            and not isinstance(e.slice, (ast.Slice, ast.Tuple))
+            and isinstance(cand, ast.Subscript)):
+        return e
+    args = e.value.args
+    if any(isinstance(a, ast.Starred) for a in args) or \
+            (len(args) == 3 and const(args[2]) != 1):
+        return e
+    a, b = args[0], args[1]
+    terms = list(U.linear_terms(b)) + [(-s, t) for s, t in U.linear_terms(a)]
+    for s, t in list(terms):
+        if (s, t) in terms and (-s, t) in terms:
+            terms.remove((s, t))
+            terms.remove((-s, t))
+    X = src(cand.value)
+    if terms not in ([(1, '%s.shape[0]' % X)], [(1, 'len(%s)' % X)]):
+        return e
+    return ast.fix_missing_locations(ast.BinOp(
+        left=U._clone(a), op=ast.Add(), right=U._clone(e.slice)))
 
 
 # ---------------------------------------------------------------------------
